@@ -11,6 +11,11 @@
  *           string hash for kind def / defb; where k: index of the bucket whose chain holds the key;
  *           defb: the decimal string of the key with bit 7 set in every other byte)
  * trie   : ins <hex> v | find <hex> | rem <hex> [f] | dump   -> one result line (+ "own a" after rem)
+ * allocation failure (a failed insert / put must report failure and leave a structure that still answers like
+ * the map):  header word "const" (after the capacity / comparator): the node pool gets
+ * MUGGLE_MEMORY_POOL_CONSTANT_SIZE, so it is exhausted after <cap> nodes;  op "failat j": the j-th malloc
+ * called INSIDE the next ins / insq / put fails (link flag -Wl,--wrap=malloc; meant for cases without a
+ * pool, where one node = one malloc); prints nothing.
  * fk / fv / f = 1: the free callback for keys / values is passed, 0: NULL is passed (borrowed data: the
  * driver releases the block itself afterwards).  "own a b": how often the key / value callback was called
  * with the block of the removed association (" BAD" appended if it was called with anything else).
@@ -25,6 +30,19 @@
 #include "muggle/c/dsaa/avl_tree.h"
 #include "muggle/c/dsaa/hash_table.h"
 #include "muggle/c/dsaa/trie.h"
+
+#include "muggle/c/memory/memory_pool.h"
+
+/* malloc switch: armed only while the library's insert / put runs */
+void *__real_malloc(size_t);
+static int fail_armed, fail_at, fail_calls, fail_pending;
+void *__wrap_malloc(size_t n)
+{
+	if (fail_armed && ++fail_calls == fail_at) return NULL;
+	return __real_malloc(n);
+}
+static void fail_arm(void) { fail_at = fail_pending; fail_calls = 0; fail_armed = fail_pending > 0; fail_pending = 0; }
+static void fail_disarm(void) { fail_armed = 0; }
 
 enum { K_NONE, K_AVL, K_HT, K_TRIE };
 static int kind;
@@ -161,7 +179,9 @@ static void avl_line(const char *op, long long k, long long v, int fk, int fv)
 	}
 	if (strcmp(op, "ins") == 0 || strcmp(op, "insq") == 0) {
 		void *pk = box(k), *pv = box(v);
+		fail_arm();
 		muggle_avl_tree_node_t *n = muggle_avl_tree_insert(avl, pk, pv);
+		fail_disarm();
 		if (!n) { unbox(NULL, pk); unbox(NULL, pv); }
 		printf("ins %d\n", n ? 1 : 0);
 	} else if (strcmp(op, "find") == 0) {
@@ -249,7 +269,9 @@ static void ht_line(const char *op, long long k, long long v, int fk, int fv)
 	void *probe = ht_str ? (void *)ks : (void *)&kk;
 	if (strcmp(op, "put") == 0) {
 		void *pk = ht_str ? box_str(k) : box(k), *pv = box(v);
+		fail_arm();
 		muggle_hash_table_node_t *n = muggle_hash_table_put(ht, pk, pv);
+		fail_disarm();
 		if (!n) { unbox(NULL, pk); unbox(NULL, pv); }
 		printf("put %d\n", n ? 1 : 0);
 	} else if (strcmp(op, "find") == 0) {
@@ -347,7 +369,9 @@ static void trie_line(const char *op, const char *hex, long long v, int f)
 		muggle_trie_node_t *old = muggle_trie_find(trie, key);
 		void *oldv = old ? old->data : NULL;
 		void *pv = box(v);
+		fail_arm();
 		muggle_trie_node_t *n = muggle_trie_insert(trie, key, pv);
+		fail_disarm();
 		if (!n) unbox(NULL, pv); else if (oldv) unbox(NULL, oldv);
 		printf("ins %d\n", n ? 1 : 0);
 	} else if (strcmp(op, "find") == 0) {
@@ -388,7 +412,7 @@ static void cleanup(void)
 	if (kind == K_TRIE && trie) { muggle_trie_destroy(trie, unbox, NULL); free(trie); trie = NULL; }
 	kind = K_NONE;
 }
-static void case_begin(void) { kind = K_NONE; started = 0; live_user_blocks = 0; }
+static void case_begin(void) { kind = K_NONE; started = 0; live_user_blocks = 0; fail_pending = 0; fail_armed = 0; }
 static void case_end(void)
 {
 	int k = kind;
@@ -409,11 +433,13 @@ static void case_line(char *line)
 		bool ok = false;
 		cmp_kind = C_SGN;
 		ht_hi = 0;
+		int is_const = strstr(line, " const") != NULL;
 		if (strcmp(op, "avl") == 0) {
 			char ak[32] = "";
 			if (sscanf(line, "%*s %*lld %31s", ak) == 1) cmp_kind = parse_cmp(ak);
 			avl = (muggle_avl_tree_t *)malloc(sizeof(*avl));
 			ok = muggle_avl_tree_init(avl, cmp_i64, (size_t)x);
+			if (ok && is_const && avl->pool) muggle_memory_pool_set_flag(avl->pool, MUGGLE_MEMORY_POOL_CONSTANT_SIZE);
 			if (ok) kind = K_AVL; else { free(avl); avl = NULL; }
 		} else if (strcmp(op, "ht") == 0 && nf >= 4) {
 			ht = (muggle_hash_table_t *)malloc(sizeof(*ht));
@@ -423,10 +449,12 @@ static void case_line(char *line)
 			func_muggle_hash h = strcmp(hk, "id") == 0 ? h_id : strcmp(hk, "zero") == 0 ? h_zero :
 				strcmp(hk, "low") == 0 ? h_low : strcmp(hk, "mul") == 0 ? h_mul : NULL;
 			ok = muggle_hash_table_init(ht, (size_t)y, h, ht_str ? cmp_str : cmp_i64, (size_t)x);
+			if (ok && is_const && ht->pool) muggle_memory_pool_set_flag(ht->pool, MUGGLE_MEMORY_POOL_CONSTANT_SIZE);
 			if (ok) kind = K_HT; else { free(ht); ht = NULL; }
 		} else if (strcmp(op, "trie") == 0) {
 			trie = (muggle_trie_t *)malloc(sizeof(*trie));   /* exact size: a negative index leaves the block */
 			ok = muggle_trie_init(trie, (size_t)x);
+			if (ok && is_const && trie->pool) muggle_memory_pool_set_flag(trie->pool, MUGGLE_MEMORY_POOL_CONSTANT_SIZE);
 			if (ok) kind = K_TRIE; else { free(trie); trie = NULL; }
 		} else {
 			printf("bad header\n");
@@ -437,6 +465,12 @@ static void case_line(char *line)
 	}
 	if (kind == K_NONE) { printf("nostruct\n"); return; }
 	if (sscanf(line, "%31s", op) != 1) return;
+	if (strcmp(op, "failat") == 0) {
+		long long j = 0;
+		sscanf(line, "%*s %lld", &j);
+		fail_pending = (int)j;
+		return;
+	}
 	if (kind == K_TRIE) {
 		if (strcmp(op, "dump") == 0) { trie_dump(); return; }
 		a[0] = 0;
